@@ -189,7 +189,7 @@ func Check(w *symex.World, plan *Plan, opt Options) int {
 			replayed++
 		}
 		conf := ok && Confirmed(cd.f, r)
-		if !conf && ok && plan.RaceHarness != "" && !opt.NoReplay {
+		if !conf && ok && plan.RaceHarness != "" && !opt.NoReplay && cd.jr.Job.Harness == "gonnx.H_C17" {
 			// a transient write leaves no trace in a sequential native run: confirm it as a data race
 			ck := compact(cd.jr.Job.Case)
 			res, seen := raceChecked[ck]
